@@ -503,6 +503,13 @@ class ValueMapping:
             if i == 0:
                 lo = cimtype.minvalue
             else:
+                if valuemap_list[i - 1].endswith('..'):
+                    raise ModelError(
+                        _format("The value-mapped {0} has a ValueMap entry "
+                                "with an open low end that follows an entry "
+                                "with an open high end or the unclaimed "
+                                "marker: {1!A}",
+                                self._element_str(), valuemap_str))
                 _, previous_hi, _ = self._values_tuple(
                     i - 1, valuemap_list, values_list, cimtype)
                 lo = previous_hi + 1
@@ -514,6 +521,13 @@ class ValueMapping:
             if i == len(valuemap_list) - 1:
                 hi = cimtype.maxvalue
             else:
+                if valuemap_list[i + 1].startswith('..'):
+                    raise ModelError(
+                        _format("The value-mapped {0} has a ValueMap entry "
+                                "with an open high end that precedes an "
+                                "entry with an open low end or the unclaimed "
+                                "marker: {1!A}",
+                                self._element_str(), valuemap_str))
                 next_lo, _, _ = self._values_tuple(
                     i + 1, valuemap_list, values_list, cimtype)
                 hi = next_lo - 1
